@@ -1334,10 +1334,24 @@ C13State(s) ==
     IF s.ta[a].dyn THEN Sub("dynamic_array_well_formed", s.ta[a].wf) /\ Sub("dynamic_array_length", s.ta[a].len = 148 + 112 * s.ta[a].ninit)
     ELSE Sub("fixed_array_length", s.ta[a].len = 9988)
 
+(* C20: the SDK's liquidity quotes (increase_liquidity_quote / decrease_liquidity_quote of the same liquidity amount at the
+   pre-state price, transfer fees of both mints applied): the estimated token amounts are what the owner really pays /
+   receives, the quote never fails where the program succeeds, the slippage-adjusted maxima / minima are on the safe side. *)
+C20Liquidity(pre, e, post) ==
+  LET u   == e.sdkLiq
+      inc == e.name \in {"increase_liquidity", "increase_liquidity_v2"}
+      dA  == IF inc THEN 0 -- Delta(pre, post, e.slots.token_owner_account_a.id) ELSE Delta(pre, post, e.slots.token_owner_account_a.id)
+      dB  == IF inc THEN 0 -- Delta(pre, post, e.slots.token_owner_account_b.id) ELSE Delta(pre, post, e.slots.token_owner_account_b.id)
+  IN ("sdkLiq" \in DOMAIN e /\ u.present) =>
+     /\ Sub("sdk_succeeds_where_program_does", u.ok)
+     /\ Sub("same_token_amounts", u.estA \doteq dA /\ u.estB \doteq dB)
+     /\ Sub("bound_on_safe_side", IF inc THEN u.estA \preceq u.boundA /\ u.estB \preceq u.boundB ELSE u.boundA \preceq u.estA /\ u.boundB \preceq u.estB)
+
 (* the per-event transition *)
 IxOK(pre, e, post) ==
   /\ Chk("C20", "sdk_quote", C20Quote(e))
   /\ IF IsSwapName(e.name) THEN Chk("C20", "sdk_user_level_quote", C20QuoteUser(pre, e, post)) ELSE TRUE
+  /\ IF e.name \in {"increase_liquidity", "increase_liquidity_v2", "decrease_liquidity", "decrease_liquidity_v2"} THEN Chk("C20", "sdk_liquidity_quote", C20Liquidity(pre, e, post)) ELSE TRUE
   /\ Chk("C19", "params_in_bounds", C19State(post))
   /\ Chk("C19", "mint_admission", C19Admission(pre, e))
   \* (setters reject out-of-bound values; the property bounds pools and fee tiers in every state, the config's default only
